@@ -25,18 +25,30 @@ def variants(x):
 
 
 def search(ck, tier, seed):
-    for e in catalogue.entries(tier) + catalogue.boundary_entries():
-        for mode in ("eval", "train"):
-            if mode == "train" and not e["train_ok"]:
-                pass
-            t = attempt(catalogue.build, e, seed, torch.float32, mode == "train")
+    ents = catalogue.entries(tier) + catalogue.boundary_entries()
+    # single-channel / single-pixel images: permute + reshape is then a VIEW of the argument, not a copy
+    from nflows.transforms import normalization as norm_
+    for nm_, shp_ in (("ActNorm(image, one channel)", [1, 2, 3]), ("ActNorm(image, one pixel)", [3, 1, 1])):
+        ents.append(dict(name=nm_, make=(lambda c_=shp_[0]: norm_.ActNorm(c_)), shape=shp_, ctx=None, dom="real", inv_dom=None,
+                         umnn=False, kinks=False, train_ok=True))
+    todo = [(e, mode, dt) for e in ents for mode in ("eval", "train") for dt in (torch.float32, torch.float64)]
+    # the first training-mode call of a fresh instance (data-dependent initialisation happens inside it)
+    todo += [(e, "first-train", dt) for e in ents for dt in (torch.float32, torch.float64)
+             if any(k in e["name"] for k in ("ActNorm", "BatchNorm", "Multiscale"))]
+    for e, mode, dtype in todo:
+        if True:
+            t = attempt(catalogue.build, e, seed, dtype, mode != "eval", False, mode == "first-train")
             if t[0] != "ok":
                 continue
             t = t[1]
-            x, ctx = catalogue.sample_inputs(e, 4, seed + 5, torch.float32)
+            x, ctx = catalogue.sample_inputs(e, 4, seed + 5, dtype)
             for vname, xv in variants(x):
                 for direction in ("forward", "inverse"):
-                    ck.case(("c13", e["name"], mode, vname, direction), nontrivial=True)
+                    if mode == "first-train":
+                        if direction == "inverse":
+                            continue
+                        t = catalogue.build(e, seed, dtype, True, False, True)     # a fresh instance per first call
+                    ck.case(("c13", e["name"], mode, str(dtype), vname, direction), nontrivial=True)
                     ck.count(mode)
                     if direction == "inverse":
                         with torch.no_grad():
@@ -54,20 +66,20 @@ def search(ck, tier, seed):
                     sd0 = copy.deepcopy(t.state_dict())
                     fn = t.forward if direction == "forward" else t.inverse
                     r1 = attempt(fn, arg, ctx)
-                    case = {"search": "side-effects", "entry": e["name"], "mode": mode, "input": vname, "direction": direction, "seed": seed}
+                    case = {"search": "side-effects", "entry": e["name"], "mode": mode, "dtype": str(dtype), "input": vname, "direction": direction, "seed": seed}
                     if r1[0] != "ok":
                         continue
                     if not torch.equal(arg.detach(), before) or arg._version != ver:
                         ck.finding("side-effect:argument-modified:%s" % e["name"],
-                                   "%s %s (%s, %s input): the input tensor was written (version %d -> %d)"
-                                   % (e["name"], direction, mode, vname, ver, arg._version), case)
+                                   "%s %s (%s, %s %s input): the input tensor was written (version %d -> %d)"
+                                   % (e["name"], direction, mode, dtype, vname, ver, arg._version), case)
                     if ctx is not None and (not torch.equal(ctx, cbefore) or ctx._version != cver):
                         ck.finding("side-effect:context-modified:%s" % e["name"], "%s %s (%s)" % (e["name"], direction, mode), case)
                     sd1 = t.state_dict()
                     if not state_equal(sd0, sd1):
                         changed = [k for k in sd0 if not torch.equal(sd0[k], sd1[k])]
                         documented = all(("running_" in k) or ("log_scale" in k) or ("shift" in k) or ("initialized" in k) for k in changed)
-                        if mode == "eval" or not documented:
+                        if mode == "eval" or not documented:      # training / first training call: documented statistics only
                             ck.finding("side-effect:state-modified:%s:%s" % (mode, e["name"]),
                                        "%s %s in %s mode changed %s" % (e["name"], direction, mode, changed), case)
                     if mode == "eval":
@@ -120,7 +132,7 @@ def search(ck, tier, seed):
 
 def run(tier, seed):
     ck = Check("C13", tier, seed, areas=[], gen_groups=["Tables"])
-    ck.rule = ("every catalogue transform x {eval, train} x {forward, inverse} x inputs that are contiguous / strided views / "
+    ck.rule = ("every catalogue transform x {eval, train, first training call of a fresh normalisation layer} x {float32, float64} x {forward, inverse} x inputs that are contiguous / strided views / "
                "transposed views / grad leaves: argument data and _version, context, state_dict and repeated outputs compared "
                "bit-for-bit; distributions and flows: log_prob / sample / sample_and_log_prob / transform_to_noise; "
                "non-trivial = all; distinct by (entry, mode, input kind, direction)")
